@@ -4,6 +4,7 @@
 import PcVerif.Model.XmlText
 import PcVerif.Generated.Dfxp
 import PcVerif.Generated.Sami
+import PcVerif.Lemmas.VttPassLemmas
 namespace PcVerif.Props.C04
 open PcVerif PcVerif.Str PcVerif.XmlText
 
@@ -51,5 +52,16 @@ theorem leaf_single_line (s : Str) (c : Char) (hc : isNlCr c = false) (hs : '\n'
     intro e; subst e; exact hs hx
   rw [this]
   simp [splitWs, splitWsAux, join]
+
+/-- **C04 (WebVTT lines).** for EVERY line whose first and last characters are not white space — `&`, `<`, `>`, `-->`,
+    entity-looking and markup-looking substrings included — what `WebVTTReader._decode` makes of the line as escaped
+    by `WebVTTWriter._encode_illegal_characters` is the line itself: nothing is decoded twice, nothing is left encoded.
+    (The reader's decoding is a chain of whole-string replacements; on escaped text it is shown to act like the
+    single-pass decoder of `Spec/VttDecode.lean`, token by token.) -/
+theorem vtt_line_roundtrip (t : Str) (h : Spec.NoEdgeSpace t) : Vtt.decode (Vtt.encodeIllegal t) = t :=
+  Spec.decode_vttEncode_line t h
+
+example : Spec.NoEdgeSpace "Q&A &amp;lt; --> <i>x".toList := by
+  constructor <;> (intro c hc; simp at hc; subst hc; decide)
 
 end PcVerif.Props.C04
